@@ -8,9 +8,17 @@
 //!   authority = SOA (negative) / the cut's NS set (referral) · nothing from below a cut except
 //!   address glue in additional · DO=1 on a zone signed by hickory: every authoritative RRset in
 //!   answer/authority has ≥ 1 RRSIG covering its type, every negative or wildcard-synthesised
-//!   answer has ≥ 1 NSEC/NSEC3 (presence only; adequacy of proofs is C08/C09).
+//!   answer has ≥ 1 NSEC/NSEC3 (`denial-missing`) and – when rcode, answer kind and content already
+//!   agree with RefAuth – the NSEC/NSEC3 records present are an adequate proof by ROLE
+//!   (`denial-inadequate`: match / cover of qname, closest encloser, next closer name, wildcard as
+//!   RFC 4035 §3.1.3 / RFC 5155 §7.2 prescribe for the reference outcome; table, signature scheme
+//!   and don't-cares in `adequacy.rs`). Whole-chain comparison, signature validity and what a
+//!   validator makes of the proof stay with C08/C09/C05/C06.
 //!
 //! Don't-cares (nothing below is ever reported):
+//!   * denial proofs: see the list in `adequacy.rs` (opt-out corner cases the reference chain cannot
+//!     prove either, proofs for the final name of a CNAME chase, extra records, bitmap bits other
+//!     than QTYPE/CNAME, responses whose kind already deviates);
 //!   * additional section, except: records must be zone data (literal or wildcard-synthesised) and
 //!     anything from at/below a cut must be an address record;
 //!   * QTYPE=ANY: any non-empty subset of the matched node's RRsets (RFC 8482);
@@ -29,6 +37,7 @@
 //!   * SOA serial in signed zones: s or s+1 (hickory bumps the serial when it signs);
 //!   * AA on REFUSED.
 
+mod adequacy;
 mod refzone;
 
 use std::collections::BTreeSet;
@@ -141,6 +150,16 @@ impl Sign {
             Sign::Nsec => "nsec",
             Sign::Nsec3 { .. } => "nsec3",
         }
+    }
+    fn ref_mode(&self) -> adequacy::RefMode {
+        match self {
+            Sign::None => adequacy::RefMode::None,
+            Sign::Nsec => adequacy::RefMode::Nsec,
+            Sign::Nsec3 { iterations, salt, opt_out } => adequacy::RefMode::Nsec3 { salt: salt.clone(), iterations: *iterations, opt_out: *opt_out },
+        }
+    }
+    fn opt_out(&self) -> bool {
+        matches!(self, Sign::Nsec3 { opt_out: true, .. })
     }
     fn to_json(&self) -> Value {
         match self {
@@ -303,6 +322,12 @@ fn canon_rdata(msg: &[u8], r: &WRecord) -> Result<Vec<u8>, String> {
     };
     Ok(match r.rtype {
         ty::NS | ty::CNAME | ty::PTR => name_at(r.rdata_off)?.0,
+        ty::NSEC => {
+            // next domain name (never compressed by a conforming sender; decompressed all the same) + type bitmaps
+            let (mut v, o) = name_at(r.rdata_off)?;
+            v.extend_from_slice(&msg[o..end]);
+            v
+        }
         ty::MX => {
             if raw.len() < 3 {
                 return Err("short MX".into());
@@ -518,6 +543,9 @@ struct Case<'a> {
     zhash: u64,
     sign: &'a Sign,
     query: &'a Query,
+    /// reference NSEC / NSEC3 chain of the reference zone for this signing mode (adequacy clause:
+    /// guards the role table, never compared with hickory's chain)
+    refp: &'a adequacy::RefProofs,
 }
 
 impl Case<'_> {
@@ -530,6 +558,12 @@ struct Verdicts {
     /// (rule, sig, detail)
     v: Vec<(String, String, String)>,
     dontcare: Vec<&'static str>,
+    /// evidence counters of the adequacy clause
+    counts: Vec<String>,
+    /// attached denial records and the role table (adequacy clause), for witnesses and samples
+    denial: Option<Value>,
+    /// the oracle caught itself asking for the impossible: the run must not count as a verdict
+    oracle_fault: Option<String>,
 }
 
 impl Verdicts {
@@ -665,7 +699,7 @@ fn judge(c: &Case, e: &Outcome, o: &Obs) -> Verdicts {
     let q = &e.qname;
     let t = e.qtype;
     let signed = *c.sign != Sign::None;
-    let mut out = Verdicts { v: Vec::new(), dontcare: Vec::new() };
+    let mut out = Verdicts { v: Vec::new(), dontcare: Vec::new(), counts: Vec::new(), denial: None, oracle_fault: None };
 
     if o.tc {
         out.fail("truncated", "-", "TC=1 on a stream-sized response");
@@ -819,7 +853,7 @@ fn judge(c: &Case, e: &Outcome, o: &Obs) -> Verdicts {
 
     // ---- DO=1 on a signed zone (RFC 4035 §3.1.1: RRSIGs accompany every authoritative RRset in
     // answer and authority; §3.1.3: NSEC with No Data / Name Error / wildcard(-no-data) answers;
-    // RFC 5155 §7.2 likewise with NSEC3). Presence only.
+    // RFC 5155 §7.2 likewise with NSEC3). Presence of RRSIGs; presence and adequacy of the denial.
     // (referrals always carry the AA deviation on this tree; it does not disturb these checks)
     if signed && c.query.do_bit() && out.v.iter().all(|(r, _, _)| r == "aa-on-referral") {
         for i in 0..2 {
@@ -838,10 +872,85 @@ fn judge(c: &Case, e: &Outcome, o: &Obs) -> Verdicts {
             let want = if *c.sign == Sign::Nsec { ty::NSEC } else { ty::NSEC3 };
             if !o.sec[1].iter().any(|r| r.1 == want) {
                 out.fail("denial-missing", format!("{}|{}|{}", e.kind.as_str(), c.sign.tag(), if t == ty::SOA { "qtype-soa" } else { "-" }), format!("no {} record in the authority section", refzone::type_name(want)));
+            } else {
+                check_adequacy(c, e, o, want, &mut out);
             }
         }
     }
     out
+}
+
+/// Adequacy of the denial proof (see `adequacy.rs` for the role table and its don't-cares). Only
+/// reached when rcode, answer kind, answer content, SOA and RRSIG presence already agree with
+/// RefAuth and at least one NSEC/NSEC3 is present.
+fn check_adequacy(c: &Case, e: &Outcome, o: &Obs, want: u16, out: &mut Verdicts) {
+    let z = c.z;
+    let mode = c.sign.tag();
+    let nsec3 = want == ty::NSEC3;
+    let Some(plan) = adequacy::plan(z, e, nsec3, c.sign.opt_out(), c.refp) else { return };
+    let key = format!("{}|{}", plan.claim, mode);
+    // the role table must be satisfiable on the reference chain of the reference zone; where it is
+    // not (opt-out: a name to be matched exists only because of insecure delegations) nothing is judged
+    let on_ref = adequacy::evaluate(&plan, &c.refp.recs, &z.apex, &c.refp.hc);
+    if !on_ref.ok {
+        if c.sign.opt_out() {
+            out.dontcare.push("dontcare/adequacy-not-provable-under-opt-out");
+        } else {
+            out.oracle_fault = Some(format!("adequacy role table not satisfiable on the reference chain: {} missing {:?} for {} {}", key, on_ref.missing, refzone::show(&e.qname), refzone::type_name(e.qtype)));
+        }
+        return;
+    }
+    let mut recs: Vec<adequacy::Rec> = Vec::new();
+    let mut unparsed: Vec<String> = Vec::new();
+    for rr in o.sec[1].iter().filter(|r| r.1 == want) {
+        match if nsec3 { adequacy::parse_nsec3(rr) } else { adequacy::parse_nsec(rr) } {
+            Ok(r) => recs.push(r),
+            Err(err) => {
+                out.counts.push("adequacy/unparsed_record".into());
+                unparsed.push(format!("{}: {err}", refzone::show_rr(rr)));
+            }
+        }
+    }
+    let hc = &c.refp.hc;
+    let v = adequacy::evaluate(&plan, &recs, &z.apex, hc);
+    out.counts.push(format!("adequacy/eval/{key}"));
+    out.counts.push(format!("adequacy/kind/{}|{mode}", e.kind.as_str()));
+    out.counts.push("adequacy/evaluations".into());
+    out.counts.push(format!("adequacy/records_attached/{}", recs.len().min(4)));
+    for (role, _, res) in &v.table {
+        match res {
+            Ok((_, how)) => {
+                out.counts.push(format!("adequacy/role_ok/{role}|{mode}"));
+                out.counts.push("adequacy/roles_satisfied".into());
+                match how {
+                    Some(adequacy::CoverHow::WrapLow) => out.counts.push(format!("adequacy/cover_by_ring_closing_record/before_first_owner|{mode}")),
+                    Some(adequacy::CoverHow::WrapHigh) => out.counts.push(format!("adequacy/cover_by_ring_closing_record/after_last_owner|{mode}")),
+                    _ => {}
+                }
+            }
+            Err(m) => out.counts.push(format!("adequacy/role_missing/{m}|{mode}")),
+        }
+    }
+    let mut dj = adequacy::table_json(&plan, &v, &recs, hc);
+    dj["records"] = json!(recs.iter().map(adequacy::show_rec).collect::<Vec<_>>());
+    if !unparsed.is_empty() {
+        dj["unparsed_records"] = json!(unparsed);
+    }
+    out.denial = Some(dj);
+    if v.ok {
+        out.counts.push(format!("adequacy/ok/{key}"));
+        out.counts.push("adequacy/adequate".into());
+        if v.alt.is_some_and(|a| a > 0) {
+            out.counts.push("adequacy/ok_by_alternative_proof".into());
+        }
+        return;
+    }
+    let roles: Vec<String> = plan.alts[0].iter().map(|r| format!("{}({})", r.role, refzone::show(&r.target))).collect();
+    out.fail(
+        "denial-inadequate",
+        format!("{}|{}|missing={}|{}", plan.claim, mode, v.missing.join(","), if c.sign.opt_out() { "optout" } else { "plain" }),
+        format!("the {} records in the authority section do not prove the {}: required {} - not satisfied: {}", refzone::type_name(want), plan.claim, roles.join(" + "), v.missing.join(", ")),
+    );
 }
 
 // ---------------------------------------------------------------------------------------------
@@ -855,10 +964,13 @@ struct Evaluation {
     okind: String,
     observed: Value,
     obs: Option<Obs>,
+    counts: Vec<String>,
+    denial: Option<Value>,
+    oracle_fault: Option<String>,
 }
 
 fn evaluate(rt: &tokio::runtime::Runtime, cat: &Catalog, c: &Case, e: &Outcome) -> Evaluation {
-    let mut ev = Evaluation { v: Vec::new(), dontcare: Vec::new(), okind: String::new(), observed: Value::Null, obs: None };
+    let mut ev = Evaluation { v: Vec::new(), dontcare: Vec::new(), okind: String::new(), observed: Value::Null, obs: None, counts: Vec::new(), denial: None, oracle_fault: None };
     let msgs = match ask(rt, cat, c.query.wire(0x1010)) {
         Ok(m) => m,
         Err(err) => {
@@ -895,7 +1007,13 @@ fn evaluate(rt: &tokio::runtime::Runtime, cat: &Catalog, c: &Case, e: &Outcome) 
     let verdicts = judge(c, e, &obs);
     ev.v = verdicts.v;
     ev.dontcare = verdicts.dontcare;
+    ev.counts = verdicts.counts;
+    ev.oracle_fault = verdicts.oracle_fault;
     ev.observed = json!({"kind": ev.okind, "response": obs_json(&obs), "hex": hex(msg)});
+    if let Some(d) = &verdicts.denial {
+        ev.observed["denial"] = d.clone();
+    }
+    ev.denial = verdicts.denial;
     ev.obs = Some(obs);
     ev
 }
@@ -942,6 +1060,13 @@ impl Runner<'_> {
         }
         for d in &ev.dontcare {
             self.rep.count(d);
+        }
+        for k in &ev.counts {
+            self.rep.count(k);
+        }
+        if let Some(f) = &ev.oracle_fault {
+            self.rep.count("adequacy/oracle_fault");
+            self.rep.inconclusive(f);
         }
         if ev.v.is_empty() {
             self.rep.count("agree");
@@ -990,7 +1115,8 @@ fn minimize(rt: &tokio::runtime::Runtime, z: &Zone, sign: &Sign, query: &Query, 
     let sigs_of = |z: &Zone, sign: &Sign, query: &Query| -> Option<Vec<(String, String)>> {
         let cat = build_catalog(z, sign).ok()?;
         let e = refzone::ref_auth(z, &query.qname, query.qtype);
-        let ev = evaluate(rt, &cat, &Case { z, zhash: 0, sign, query }, &e);
+        let refp = adequacy::RefProofs::build(z, &sign.ref_mode());
+        let ev = evaluate(rt, &cat, &Case { z, zhash: 0, sign, query, refp: &refp }, &e);
         Some(ev.v.into_iter().map(|(r, s, _)| (r, s)).collect())
     };
     let good = |s: &Option<Vec<(String, String)>>, max: usize| s.as_ref().is_some_and(|v| v.contains(target) && v.len() <= max);
@@ -1057,6 +1183,7 @@ fn main() {
     let mut rep = Reporter::new(&ctx);
     // the reference model must agree with the RFCs' own examples before it judges anything
     refzone::selftest();
+    adequacy::selftest();
     let rt = tokio::runtime::Builder::new_current_thread().enable_time().build().expect("tokio runtime");
 
     if ctx.extra.contains_key("genkey") {
@@ -1087,7 +1214,8 @@ fn main() {
         let e = refzone::ref_auth(&z, &query.qname, query.qtype);
         let zhash = fnv64(&z.canonical_bytes());
         let mut r = Runner { rep: &mut rep, rt, reported: Default::default() };
-        r.run_query(&cat, &Case { z: &z, zhash, sign: &sign, query: &query }, &e);
+        let refp = adequacy::RefProofs::build(&z, &sign.ref_mode());
+        r.run_query(&cat, &Case { z: &z, zhash, sign: &sign, query: &query, refp: &refp }, &e);
         rep.replay_finish();
     }
 
@@ -1101,6 +1229,27 @@ fn main() {
     rep.must("do1_denial_present", 1000);
     rep.must("mode/nsec", 10_000);
     rep.must("mode/nsec3", 10_000);
+    // adequacy clause (quick tier, seeds 1..5, sees >= 10x these numbers; wildcard-nodata is not
+    // listed: hickory answers it NXDOMAIN (C10-F1), so the clause never gets to judge one)
+    rep.must("adequacy/evaluations", 100_000);
+    rep.must("adequacy/roles_satisfied", 200_000);
+    rep.must("adequacy/adequate", 100_000);
+    for mode in ["nsec", "nsec3"] {
+        rep.must(&format!("adequacy/kind/nxdomain|{mode}"), 30_000);
+        rep.must(&format!("adequacy/kind/nodata|{mode}"), 3_000);
+        rep.must(&format!("adequacy/kind/ent-nodata|{mode}"), 3_000);
+        rep.must(&format!("adequacy/kind/wildcard-answer|{mode}"), 3_000);
+        rep.must(&format!("adequacy/kind/wildcard-cname|{mode}"), 2_000);
+        rep.must(&format!("adequacy/role_ok/cover-wc|{mode}"), 30_000);
+        rep.must(&format!("adequacy/role_ok/match-qname|{mode}"), 3_000);
+        // covers that only the ring-closing record can provide
+        rep.must(&format!("adequacy/cover_by_ring_closing_record/after_last_owner|{mode}"), 8_000);
+    }
+    rep.must("adequacy/role_ok/cover-qname|nsec", 30_000);
+    rep.must("adequacy/role_ok/match-ce|nsec3", 30_000);
+    rep.must("adequacy/role_ok/cover-nc|nsec3", 30_000);
+    // hashes that sort before the first NSEC3 owner (nothing sorts before the apex in an NSEC chain)
+    rep.must("adequacy/cover_by_ring_closing_record/before_first_owner|nsec3", 8_000);
 
     let mut rng = ctx.rng("zones");
     let cfg = refzone::GenCfg::default();
@@ -1143,6 +1292,26 @@ fn main() {
                     continue;
                 }
             };
+            let refp = adequacy::RefProofs::build(&z, &sign.ref_mode());
+            if sign != Sign::None {
+                // Oracle self-check, independent of hickory: whatever the adequacy clause may ask
+                // for must be deliverable by the reference chain of this zone – also for the kinds
+                // hickory currently answers differently (wildcard NODATA, C10-F1), where the
+                // clause never gets as far as judging a response.
+                for (_, _, e) in &exp {
+                    let Some(plan) = adequacy::plan(&z, e, sign.tag() == "nsec3", sign.opt_out(), &refp) else { continue };
+                    let v = adequacy::evaluate(&plan, &refp.recs, &z.apex, &refp.hc);
+                    r.rep.count("adequacy/selfcheck/plans");
+                    if v.ok {
+                        r.rep.count("adequacy/selfcheck/provable_on_reference_chain");
+                    } else if sign.opt_out() {
+                        r.rep.count("adequacy/selfcheck/not_provable_under_opt_out");
+                    } else {
+                        r.rep.count("adequacy/oracle_fault");
+                        r.rep.inconclusive(&format!("adequacy role table not satisfiable on the reference chain: {}|{} missing {:?} for {} {} in zone {}", plan.claim, sign.tag(), v.missing, refzone::show(&e.qname), refzone::type_name(e.qtype), z.to_text().replace('\n', "; ")));
+                    }
+                }
+            }
             for (qi, t, e) in &exp {
                 // DO settings: unsigned: plain queries (1/8 also with DO=1, nothing extra to check);
                 // signed: DO=1 always, DO=0 for a quarter
@@ -1162,7 +1331,7 @@ fn main() {
                 for edns in variants {
                     let qname = if rng.chance(1, 8) { upper(&qnames[*qi]) } else { qnames[*qi].clone() };
                     let query = Query { qname, qtype: *t, edns };
-                    r.run_query(&cat, &Case { z: &z, zhash, sign: &sign, query: &query }, e);
+                    r.run_query(&cat, &Case { z: &z, zhash, sign: &sign, query: &query, refp: &refp }, e);
                 }
             }
         }
